@@ -43,12 +43,13 @@ Definition oexpr_eqb (a b : option expr) : bool :=
   match a, b with Some x, Some y => expr_eqb x y | None, None => true | _, _ => false end.
 
 Definition model_out (c : case) : option expr := simplify (cfg_of c) (c_e c).
-Definition model_raises (c : case) : bool := raises (cfg_of c) (size (c_e c)) (c_e c).
+Definition model_raises (c : case) : bool := raises (cfg_of c) true (size (c_e c)) (c_e c).
+Definition model_div0 (c : case) : bool := raises (cfg_of c) false (size (c_e c)) (c_e c).
 
 (* (1) structural agreement *)
 Definition ok_struct (c : case) : bool :=
   match c_out c with
-  | None => model_raises c
+  | None => model_div0 c
   | Some o => negb (model_raises c) && oexpr_eqb (model_out c) (Some o)
   end.
 
